@@ -69,12 +69,12 @@ theorem C07_death_unknown_session (st : St) (e : Entry) (h : e.type = 5) (hs : A
 marked, marks the message (`msg.Type = MessageOfDeath`), rewrites the log entry's data, stores it
 in raft's log store and only then exits; and the death case updates the marker first. -/
 theorem C07_wiring :
-    Gen.Exprs.fact "death.skipguard" = "msg.Type == robust.MessageOfDeath => return" ∧
-    Gen.Exprs.fact "death.assign" = "msg.Type = robust.MessageOfDeath" ∧
-    Gen.Exprs.fact "death.rewrite" = "l.Data = data" ∧
-    Gen.Exprs.fact "death.store" = "fsm.store.StoreLogProto(l)" ∧
+    Gen.Exprs.fact "death.skipguard" = "param2.Type == robust.MessageOfDeath => return" ∧
+    Gen.Exprs.fact "death.assign" = "param2.Type = robust.MessageOfDeath" ∧
+    Gen.Exprs.fact "death.rewrite" = "param1.Data = local:[]byte" ∧
+    Gen.Exprs.fact "death.store" = "recv.store.StoreLogProto(param1)" ∧
     Gen.Exprs.fact "death.order.mark-store-exit" = "true" ∧
-    Gen.Exprs.fact "death.case.first" = "i.UpdateLastClientMessageID(msg)" := by decide
+    Gen.Exprs.fact "death.case.first" = "param2.UpdateLastClientMessageID(param1)" := by decide
 
 /-- non-vacuity: a three-entry log whose middle entry panics needs exactly one restart -/
 example :
@@ -82,5 +82,78 @@ example :
     let death : Nat → Nat → Nat := fun s _ => s
     (lives apply death 0 2 [⟨1, false⟩, ⟨13, false⟩, ⟨5, false⟩]).2 = some 6 ∧
     (lives apply death 0 2 [⟨1, false⟩, ⟨13, false⟩, ⟨5, false⟩]).1.map (·.dead) = [false, true, false] := by decide
+
+/-! ## non-vacuity -/
+
+namespace Ex
+/-- a toy state machine: the state is the sum of the applied messages, `13` and `17` panic; the
+marker effect of a skipped message adds `100` -/
+def apply : Nat → Nat → Option Nat := fun s m => if m = 13 ∨ m = 17 then none else some (s + m)
+def death : Nat → Nat → Nat := fun s _ => s + 100
+/-- six durable entries: one already marked (`7`), two that panic and are not marked yet -/
+def log : List (E Nat) := [⟨1, false⟩, ⟨7, true⟩, ⟨13, false⟩, ⟨5, false⟩, ⟨17, false⟩, ⟨2, false⟩]
+/-- the same log after both restarts: all three bad entries marked -/
+def logMarked : List (E Nat) := [⟨1, false⟩, ⟨7, true⟩, ⟨13, true⟩, ⟨5, false⟩, ⟨17, true⟩, ⟨2, false⟩]
+def view (l : List (E Nat)) : List (Nat × Bool) := l.map fun e => (e.msg, e.dead)
+
+/-- `C07_marks_exactly_that_entry`: the first life dies (hypothesis), at entry `13` -/
+example : ∃ pre e post sk, log = pre ++ e :: post ∧ e.dead = false ∧
+    (life apply death 0 log).1 = pre ++ { e with dead := true } :: post ∧
+    replay apply death 0 pre = some sk ∧ apply sk e.msg = none :=
+  C07_marks_exactly_that_entry apply death 0 log (by decide)
+/-- … concretely: only the third entry is rewritten; the prefix `[1, 7†]` had been replayed to `101` -/
+example : (life apply death 0 log).2 = none ∧
+    view (life apply death 0 log).1 = [(1, false), (7, true), (13, true), (5, false), (17, false), (2, false)] ∧
+    replay apply death 0 (log.take 2) = some 101 ∧ apply 101 13 = none := by decide
+
+/-- `C07_survivor`: a life over the fully marked log survives (hypothesis), the log is untouched -/
+example : (life apply death 0 logMarked).1 = logMarked ∧ replay apply death 0 logMarked = some 308 :=
+  C07_survivor apply death 0 logMarked 308 (by decide)
+example : view (life apply death 0 logMarked).1 = view logMarked := by decide
+
+/-- `C07_restart_converges`: five unmarked entries, six lives allowed (hypothesis `alive log < fuel`) -/
+example : ∃ s, (lives apply death 0 6 log).2 = some s ∧
+    replay apply death 0 (lives apply death 0 6 log).1 = some s ∧
+    (lives apply death 0 6 log).1.map (·.msg) = log.map (·.msg) :=
+  C07_restart_converges apply death 0 log 6 (by decide)
+/-- … concretely: three lives suffice here, the node ends in state `308` with the log `logMarked` -/
+example : alive log = 5 ∧ (lives apply death 0 3 log).2 = some 308 ∧
+    view (lives apply death 0 3 log).1 = view logMarked ∧ (lives apply death 0 2 log).2 = none := by decide
+
+/-! the IRC instance, on a state with three sessions and a channel -/
+def alice : Session := { id := ⟨1, 0⟩, nick := "alice", username := "a", loggedIn := true, channels := ["#c"], operator := true, lastClientMessageId := 41, lastActivity := 4, lastNonPing := 4, ircPrefix := ⟨"alice", "a", "robust/0x1"⟩ }
+def bob : Session := { id := ⟨2, 0⟩, nick := "bob", username := "b", loggedIn := true, channels := ["#c"], modes := ['i'], invitedTo := ["#d"], auth := "secret", lastClientMessageId := 77, lastActivity := 8, lastNonPing := 8, ircPrefix := ⟨"bob", "b", "robust/0x2"⟩ }
+def carol : Session := { id := ⟨3, 0⟩, nick := "carol", username := "c", loggedIn := true, lastClientMessageId := 5, ircPrefix := ⟨"carol", "c", "robust/0x3"⟩ }
+def chanC : Channel := { name := "#c", nicks := [("alice", { chanop := true }), ("bob", {})], modes := ['n', 't'] }
+def st0 : St := { sessions := [(⟨1, 0⟩, alice), (⟨2, 0⟩, bob), (⟨3, 0⟩, carol)], nicks := [("alice", ⟨1, 0⟩), ("bob", ⟨2, 0⟩), ("carol", ⟨3, 0⟩)], channels := [("#c", chanC)], lastProcessed := ⟨9, 0⟩ }
+/-- a line of bob that was marked as message of death (entry 12, client message id 78) -/
+def eDead : Entry := { type := 5, id := 12, session := ⟨2, 0⟩, data := "PRIVMSG #c :boom", unixNano := 0, cmid := 78, rev := 0, remoteAddr := "10.0.0.2", cfg := none }
+/-- a marked line of a session that has been deleted in the meantime -/
+def eGone : Entry := { eDead with id := 13, session := ⟨7, 0⟩ }
+def bob' : Session := { bob with lastClientMessageId := 78, lastActivity := 12, lastNonPing := 12 }
+def st1 : St := { st0 with sessions := [(⟨1, 0⟩, alice), (⟨2, 0⟩, bob'), (⟨3, 0⟩, carol)] }
+def okSt (r : Res (St × List Out)) : Option (St × Nat) :=
+  match r with
+  | .ok (st, out) => some (st, out.length)
+  | _ => none
+
+/-- `C07_death_no_output` on `st0` / `eDead`, and the concrete result: only bob's marker and activity
+timestamps move (77 ↦ 78, 8 ↦ 12); no output; the line itself (`PRIVMSG`) has no effect -/
+example : applyEntry st0 eDead = .ok ((updateLastClientMessageID st0 eDead).getD st0, []) :=
+  C07_death_no_output st0 eDead rfl
+example : okSt (applyEntry st0 eDead) = some (st1, 0) := by decide
+/-- `C07_death_marker` on `st0` / `eDead` / `bob` -/
+example : ∃ s', updateLastClientMessageID st0 eDead = some { st0 with sessions := AMap.set st0.sessions eDead.session s' } ∧
+    s'.lastClientMessageId = 78 ∧ s'.lastActivity = 12 ∧ s'.id = bob.id ∧ s'.nick = "bob" ∧ s'.channels = ["#c"] ∧
+    s'.loggedIn = true ∧ s'.operator = false ∧ s'.server = false ∧ s'.deleted = false ∧ s'.auth = "secret" ∧
+    s'.modes = ['i'] ∧ s'.invitedTo = ["#d"] :=
+  C07_death_marker st0 eDead bob (by decide)
+example : updateLastClientMessageID st0 eDead = some st1 := by decide
+/-- `C07_death_unknown_session` on `st0` / `eGone` (session 7 is not stored) -/
+example : applyEntry st0 eGone = .ok (st0, []) := C07_death_unknown_session st0 eGone rfl (by decide)
+/-- so `getD` in `C07_death_no_output` covers exactly these two cases: stored (marker effect) and
+not stored (no effect); it does not hide a third one -/
+example : (updateLastClientMessageID st0 eGone).getD st0 = st0 ∧ (updateLastClientMessageID st0 eDead).getD st0 = st1 := by decide
+end Ex
 
 end Robust.Props.C07
